@@ -15,6 +15,7 @@ EXPLANATION = (
     "accumulates into a buffer, the request-complete test scans the whole received prefix (start 0, or the "
     "pre-increment count minus >= 3), so a header terminator split over two reads is still found."
     ' SRV-7: no loop/while awaits connect() (bounded connection attempts per request).'
+    ' SRV-8: a response buffer that outlives a connection is cleared unconditionally before each request is handled. SRV-9: the request buffer holds at least 2048 bytes.'
 )
 NOT_DECIDED = "timing (answer within a deadline), tokio runtime behaviour, errors of the listener socket itself"
 ASSUMPTIONS = ["a read of 0 bytes from tokio AsyncReadExt::read means EOF (or a full destination buffer)",
